@@ -113,6 +113,9 @@ func runCLI(bin, dir string, argv ...string) string {
 }
 
 func init() {
+	// 20 passes over twelve output paths / up to 32 goroutines × 3 entry points per case
+	core.SetEnvelope("repeat", 512*40, 256<<20, 60000)
+	core.SetEnvelope("concurrent", 512*120, 512<<20, 60000)
 	// repeat: n passes, every output byte-identical to the first pass
 	core.Register("repeat", func(args []string) string {
 		n := core.Atoi(args[0])
@@ -179,7 +182,20 @@ func init() {
 		mem := memFS(files)
 		dbData := mem["global/1262"]
 		dbs := pgdump.ParsePGDatabase(dbData)
+		// one client shared by all goroutines (its cache is guarded by a mutex since fix 06)
+		shared := pgdump.NewRemoteClient(memReader(mem))
 		entry := []func() string{
+			func() string { return mustJSON(shared.DumpAll()) },
+			func() string {
+				var sb strings.Builder
+				for _, db := range shared.Databases() {
+					sb.WriteString(showTIs(shared.Tables(db.OID)))
+					for _, t := range shared.Tables(db.OID) {
+						sb.WriteString(fmt.Sprint(shared.ColumnNames(db.OID, t.OID)))
+					}
+				}
+				return sb.String()
+			},
 			func() string { r, _ := pgdump.DumpDataDir(dir, nil); return mustJSON(r) },
 			func() string {
 				r, _ := pgdump.DumpDataDir(dir, &pgdump.Options{ListOnly: true, SkipSystemTables: false, PostgresVersion: 0})
@@ -226,6 +242,8 @@ func init() {
 		for i, e := range entry {
 			seq[i] = e()
 		}
+		// a cold shared client for the concurrent phase: the goroutines race to fill its cache
+		shared = pgdump.NewRemoteClient(memReader(mem))
 		var wg sync.WaitGroup
 		var mu sync.Mutex
 		bad := ""
